@@ -204,6 +204,7 @@ func cmdCheck(argv []string) int {
 	repo := fs.String("repo", "/repo/src", "path of the Go module to verify")
 	verbose := fs.Bool("v", false, "verbose")
 	noEvidence := fs.Bool("no-evidence", false, "do not write the evidence file")
+	allObls := fs.Bool("all", false, "keep every obligation of the verified functions, whatever property it is tagged with (debug aid)")
 	if len(argv) < 1 {
 		fmt.Println("usage: gocv check <prop>")
 		return 2
@@ -315,7 +316,7 @@ func cmdCheck(argv []string) int {
 	// keep obligations that serve this property
 	var obls []*Obligation
 	for _, ob := range ex.Obls {
-		if hasProp(ob.Props, id) {
+		if hasProp(ob.Props, id) || *allObls {
 			obls = append(obls, ob)
 		}
 	}
